@@ -59,9 +59,17 @@ def run(chk: Check, drv: Driver):
             pairs = list(itertools.product(fmts, fmts))
             if len(pairs) > (40 if quick else 400):
                 pairs = rng.sample(pairs, 40 if quick else 400)
-            for (lm, lo), (rm, ro) in pairs:
+            # directed pass: EVERY format of this order (a sample of 16 for order 3) once with itself and with
+            # pairwise different dimension sizes and a dense asymmetric content, so that any confusion of storage
+            # order and dimension order (mode orderings that are not the identity) changes a value
+            directed = fmts if len(fmts) <= 16 else rng.sample(fmts, 16)
+            pairs = [(f, f) for f in directed] + pairs
+            n_directed = len(directed)
+            for pair_no, ((lm, lo), (rm, ro)) in enumerate(pairs):
                 for op in "+-*":
                     dims = tuple(rng.choice([0, 1, 2, 3]) for _ in range(order))
+                    if pair_no < n_directed:
+                        dims = (2, 3, 4)[:order]
                     dims_r = dims
                     if order > 0 and rng.random() < 0.15:
                         d2 = list(dims)
@@ -106,6 +114,9 @@ def run(chk: Check, drv: Driver):
                     for side in ("right", "left"):
                         dims = tuple(rng.choice([0, 1, 2, 3]) for _ in range(order))
                         lv = problems.random_input(rng, dims)
+                        if pair_no < n_directed:
+                            dims = (2, 3, 4)[:order]
+                            lv = {c: float(1 + 2 * n_) for n_, c in enumerate(itertools.product(*[range(d) for d in dims])) if n_ % 3 != 1}
                         T = Tensor.from_aos(list(lv), list(lv.values()), dimensions=dims, format=fmt_obj(lm, lo))
                         k = rng.choice([2, -1, 0, 2.5, 1])
                         case = {"op": op, "tensor": [fmt_str(lm, lo), list(dims), sorted(lv.items())], "scalar": k, "scalar_side": side}
